@@ -879,11 +879,16 @@ def counter_pairing(m):
             return False, f"counter {c} is not incremented by exactly 1 in exactly one place"
         # the increment sits in an `if key not in D:` block that also stores D[key]
         for node in ast.walk(w):
-            if isinstance(node, ast.If) and incs[0] in node.body:
+            arm = node.body if isinstance(node, ast.If) and incs[0] in node.body else \
+                node.orelse if isinstance(node, ast.If) and incs[0] in node.orelse else None
+            if arm is not None:
                 t = node.test
-                if isinstance(t, ast.Compare) and isinstance(t.ops[0], ast.NotIn):
+                # (`if key not in D: <store, count>` or, with an else branch and the test
+                # written positively, `if key in D: ... else: <store, count>`)
+                if isinstance(t, ast.Compare) and isinstance(
+                        t.ops[0], ast.NotIn if arm is node.body else ast.In):
                     key, d = ast.unparse(t.left), ast.unparse(t.comparators[0])
-                    ins = [s for s in node.body if isinstance(s, ast.Assign)
+                    ins = [s for s in arm if isinstance(s, ast.Assign)
                            and isinstance(s.targets[0], ast.Subscript)
                            and ast.unparse(s.targets[0].value) == d
                            and ast.unparse(s.targets[0].slice) == key]
